@@ -167,20 +167,58 @@ def _judge_malformed_api(s):
     water = subs['water']
     C = pp.Container
     stock = C('stock', initial_contents=[(water, '50 mL')])
+    salty = C('salty', initial_contents=[(water, '50 mL'), (subs['nacl'], '100 mmol')])
+
+    def recipe_transfer():
+        r = pp.Recipe()
+        d = C('d')
+        r.uses(salty, d)
+        r.transfer(salty, d, s)
+        r.bake()
     out = []
     for label, call in (('Unit.convert', lambda: pp.Unit.convert(water, s, 'mL')),
                         ('Container()', lambda: C('x', initial_contents=[(water, s)])),
                         ('Container(max_volume)', lambda: C('x', s)),
                         ('Container.transfer', lambda: C.transfer(stock, C('d'), s)),
                         ('Container.fill_to', lambda: stock.fill_to(water, s)),
-                        ('Plate(max_volume_per_well)', lambda: pp.Plate('p', s))):
+                        ('Plate(max_volume_per_well)', lambda: pp.Plate('p', s)),
+                        ('Plate.transfer', lambda: pp.Plate.transfer(salty, pp.Plate('p', '1 mL', rows=1, columns=2), s)),
+                        ('Plate.fill_to', lambda: pp.Plate('p', '1 mL', rows=1, columns=2).fill_to(water, s)),
+                        ('create_solution(total_quantity)', lambda: C.create_solution(subs['nacl'], water, 'x', concentration='0.1 M',
+                                                                                      total_quantity=s)),
+                        ('create_solution(quantity)', lambda: C.create_solution(subs['nacl'], water, 'x', concentration='0.1 M',
+                                                                                quantity=s)),
+                        ('create_solution_from(quantity)', lambda: C.create_solution_from(salty, subs['nacl'], '0.1 M', water, s)),
+                        ('Recipe.transfer', recipe_transfer)):
         try:
             call()
         except Exception:  # noqa
             continue
         out.append(V(f"{label} | accepted-malformed | quantity-string",
-                     f"{label} accepted the malformed quantity {s!r} (Unit.parse_quantity refuses it)",
+                     f"{label} accepted {s!r} where a quantity is expected (it is not a quantity string of the documented forms)",
                      {'parser': 'quantity-malformed-api', 's': repr(s)}, 'error', 'returned'))
+    return out
+
+
+def _judge_capacity_kind(s):
+    """A well-formed quantity of another kind (a mass, an amount, an activity, a molarity) is not a capacity: 'v pU' denotes v*p
+    of base unit U, so it cannot be read as a volume."""
+    pp = env.load()
+    out = []
+
+    def recipe_container():
+        r = pp.Recipe()
+        r.create_container('n', s)
+        r.bake()
+    for label, call in (('Container(max_volume)', lambda: pp.Container('x', s)), ('Plate(max_volume_per_well)', lambda: pp.Plate('p', s)),
+                        ('Recipe.create_container(max_volume)', recipe_container)):
+        try:
+            call()
+        except Exception:  # noqa
+            continue
+        out.append(V(f"{label} | accepted-malformed | capacity-of-another-kind",
+                     f"{label} accepted {s!r} as a capacity: a quantity that is not a volume was given the meaning of one",
+                     {'parser': 'capacity-kind', 's': repr(s)}, 'error', 'returned'))
     return out
 
 
@@ -217,14 +255,15 @@ def equivalence(pp):
     C = pp.Container
     viols, n = [], 0
     stock = C('stock', initial_contents=[(water, '50 mL'), (nacl, '100 mmol')])
+    stock_v = C('stock', initial_contents=[(water, '50 mL'), (dmso, '25 mL')])
 
     def uses_of_conc(c):
         solute = dmso if ('v/v' in c or 'L/L' in c or 'mL/' in c and 'g' not in c or 'uL/' in c) else nacl
         out = {'create_solution': lambda: C.create_solution(solute, water, 'x', concentration=c, total_quantity='20 mL'),
                'create_solution+quantity': lambda: C.create_solution(solute, water, 'x', concentration=c, quantity='0.3 g')}
-        if solute is nacl:
-            out['dilute'] = lambda: stock.dilute(nacl, c, water)
-            out['create_solution_from'] = lambda: C.create_solution_from(stock, nacl, c, water, '10 mL', 'x')[1]
+        st = stock if solute is nacl else stock_v
+        out['dilute'] = lambda: st.dilute(solute, c, water)
+        out['create_solution_from'] = lambda: C.create_solution_from(st, solute, c, water, '10 mL', 'x')[1]
         return out
     for cls in CONC_CLASSES:
         base = {k: f for k, f in uses_of_conc(cls[0]).items()}
@@ -250,8 +289,12 @@ def equivalence(pp):
     # ... and everywhere means everywhere: the very same string must be treated alike by the container operation and by
     # the corresponding recipe step (whose pre-checks parse the concentration on their own)
     mass_per_volume = ['29.2214 g/L', '29.2214 mg/mL', '0.292214 g/10 mL', '0.0292214 g/mL', '2.92214 %w/v', '29221.4 ug/mL']
+    stock_n = stock
     for c in [x for cls in CONC_CLASSES for x in cls] + mass_per_volume:
         solute = dmso if ('v/v' in c or 'L/L' in c or ('mL/' in c and 'g' not in c.split('/')[0]) or 'uL/' in c) else nacl
+
+        stock = stock_n if solute is nacl else stock_v
+
         def direct_and_recipe(kind):
             if kind == 'dilute':
                 d = lambda: stock.dilute(solute, c, water)                                            # noqa
@@ -275,8 +318,6 @@ def equivalence(pp):
                     return rc.bake()['x']
             return d, r
         for kind in ('dilute', 'create_solution_from', 'create_solution'):
-            if solute is dmso and kind != 'create_solution':
-                continue
             n += 1
             d, r = direct_and_recipe(kind)
             outs = []
@@ -380,10 +421,17 @@ def run(col):
     res = [_judge_malformed(i) for i in items] + [_judge_lenient(i) for i in LENIENT]
     col.add([v for v in res if v])
     n += len(items) + len(LENIENT)
-    api_strings = [x for x in mq if isinstance(x, str)] + ['1,000 uL', '2,5 mL', '0,5 g', '10 mL ', ' 10 mL', '10 ml', '1e3,0 uL']
+    api_strings = [x for x in mq if isinstance(x, str)] + ['1,000 uL', '2,5 mL', '0,5 g', '10 mL ', ' 10 mL', '10 ml', '1e3,0 uL',
+                                                              # a concentration is not a quantity, whatever the parser's internals
+                                                              # make of the letter M
+                                                              '5 mM', '0.005 M', '5000 uM', '1 M', '2 mol/L', '1 %v/v']
     for x in api_strings:
         col.add(_judge_malformed_api(x))
-    n += 6 * len(api_strings)
+    n += 12 * len(api_strings)
+    kinds = ['5 mg', '5 g', '2 kg', '5 mmol', '1 mol', '3 umol', '2 U', '5 mM', '1 M']
+    for x in kinds:
+        col.add(_judge_capacity_kind(x))
+    n += 3 * len(kinds)
     ev, k = equivalence(pp)
     col.add(ev)
     n += k
@@ -409,6 +457,9 @@ def replay(case):
             return r['violations']
         v = _judge_concentration(case['s'])
         return [v] if v else []
+    if case['parser'] == 'capacity-kind':
+        import ast
+        return _judge_capacity_kind(ast.literal_eval(case['s']))
     if case['parser'] == 'quantity-malformed-api':
         import ast
         return _judge_malformed_api(ast.literal_eval(case['s']))
